@@ -8,6 +8,7 @@
    Default values and annotation expressions are opaque here; their text is C15. *)
 From Coq Require Import ZArith NArith List Bool.
 From PydoctorVerif Require Import Base.Sexp Spec.SigStr Model.Sig Proofs.SigProofs.
+From PydoctorVerif Require Import Model.SigIR Gen.SigCode Proofs.SigIRProofs.
 Import ListNotations.
 
 (* ---- defaults are where the source has them --------------------------------------------------------- *)
@@ -15,7 +16,7 @@ Import ListNotations.
    assert holds, the subscript is in range and the result is the right-aligned default:
    aligned_defaults n d = [None] * (n - |d|) ++ map Some d. *)
 Theorem C14_get_default_aligned :
-  forall (n : nat) (d : list expr) (i : nat),
+  forall (n : nat) (d : list SigStr.expr) (i : nat),
     (length d <= n)%nat -> (i < n)%nat ->
     get_default (Z.of_nat n) (Z.of_nat n - zlen d) d (Z.of_nat i) = Ok (nth i (aligned_defaults n d) None).
 Proof. exact get_default_aligned. Qed.
@@ -154,7 +155,7 @@ Proof. exact primary_alone. Qed.
 
 (* ---- non-vacuity and witnesses ---------------------------------------------------------------------- *)
 (*  def f(a, b: "int" = D1, /, c=D2, *args, k: "1 +" = D3, **kw) -> "None": ...   (names are code points) *)
-Definition w_D (n : N) : expr := ENode n [].
+Definition w_D (n : N) : SigStr.expr := ENode n [].
 Definition w_src : src_sig :=
   mkSrc [mkSparam [97%N] None None; mkSparam [98%N] (Some (EStr 1 (Some (EName [105; 110; 116]%N)))) (Some (w_D 1))]
         [mkSparam [99%N] None (Some (w_D 2))]
@@ -230,3 +231,45 @@ Proof.
     apply B_sub_s with (EName [88%N]); [constructor | reflexivity | constructor].
   - vm_compute. reflexivity.
 Qed.
+
+(* ---- the tie to the source: the code itself ------------------------------------------------------------ *)
+(* Gen/SigCode.v is written on every run by harness/gen/gen_c14_code.py (fail-closed) from the CURRENT source of
+   ModuleVistor._annotations_from_function and of the part of ModuleVistor._handleFunctionDef that builds
+   `parameters`; Model/SigIR.v gives that code its meaning.  For every definition:
+   the mapping the translated _annotations_from_function returns is the model's annotations_from_function ... *)
+Theorem C14_code_annotations_is_model :
+  forall d : funcdef,
+    annotations_ir sig_code (VDef d) = VDict (fst (annotations_from_function (fd_args d) (fd_returns d))).
+Proof. exact code_annotations_is_model. Qed.
+
+(* ... and for every ast.arguments record the parser can produce, the inspect parameters the translated
+   _handleFunctionDef appends to `parameters` are exactly the model's build_params (hence, by C14_default_alignment /
+   C14_kinds_order / C14_roundtrip above, right-aligned defaults, kinds in order, display that reads back). *)
+Theorem C14_code_parameters_is_model :
+  forall d : funcdef,
+    wf_args (fd_args d) ->
+    exists ps,
+      build_params (fst (annotations_from_function (fd_args d) (fd_returns d))) (fd_args d) = Ok ps /\
+      parameters_ir sig_code d = map VParam ps.
+Proof. exact code_parameters_build_params. Qed.
+
+(* the property on the translated code directly: parameter k of the code's output has the default the record means *)
+Theorem C14_code_default_alignment :
+  forall d : funcdef,
+    wf_args (fd_args d) ->
+    exists ps,
+      parameters_ir sig_code d = map VParam ps /\
+      map pname ps = map a_name (all_args (fd_args d)) /\
+      map pdefault ps =
+      aligned_defaults (length (posonlyargs (fd_args d)) + length (args (fd_args d))) (defaults (fd_args d))
+      ++ opt_none (vararg (fd_args d)) ++ kw_defaults (fd_args d) ++ opt_none (kwarg (fd_args d)).
+Proof.
+  intros d H. eexists. split; [apply code_parameters_is_model; exact H|].
+  exact (conj (expected_params_names _ _ H) (expected_params_defaults _ _ H)).
+Qed.
+
+(* non-vacuity: the translated code, run on the witness definition of C14_roundtrip_hypotheses_satisfiable *)
+Example C14_code_runs_on_witness :
+  wf_args (to_ast w_src) /\
+  all_params (parameters_ir sig_code (mkDef (to_ast w_src) (s_returns w_src) false false)) = Some (sig_params (shown_sig w_src)).
+Proof. split; [vm_compute; split; auto | vm_compute; reflexivity]. Qed.
